@@ -781,6 +781,31 @@ def n8(led, rid, ctx):
     led.floor(rid, "predicate sites in value selectors", n, 18)
 
 
+def n13(led, rid, ctx):
+    """MUST-PASS: a variable selector that feeds a tie-breaker (`consider`) leaves only through
+    `select`, which is what empties the tie-breaker: an early return keeps the candidates of this
+    call for the next one, where they may be fixed"""
+    lib = ctx.lib
+    n = 0
+    for imp in lib.impls_of("VariableSelector"):
+        if "/tests" in imp["span"]:
+            continue
+        f = lib.impl_fn(imp, "select_variable")
+        if f is None:
+            continue
+        if not any(c.name == "consider" for g in f.with_closures() for c in g.calls):
+            continue
+        who = (imp.get("self_adt") or "?").rsplit("::", 1)[-1]
+        sel = f.calls_named("select")
+        n += 1
+        ok = bool(sel) and all(any(f.cfg.dominates(s_.bb, r) for s_ in sel) for r in f.cfg.returns)
+        led.check(ok, rid, "%s:leaves-through-select" % who, f.span, "select dominates every return",
+                  "%s::select_variable can return without calling the tie-breaker's select: the candidates it "
+                  "considered stay cached, and a later call can return one of them although it has been fixed "
+                  "since — the value selector then proposes a predicate that is already true" % who)
+    led.floor(rid, "selectors with a tie-breaker", n, 5)
+
+
 def n11(led, rid, ctx):
     """INDEX-SPACE: ProportionalDomainSize keeps the weights compact (swap_remove) and maps a weight
     position to a variable position through weights_idx_to_variables; `variables` is only indexed
@@ -930,4 +955,5 @@ def run(ctx, led):
     from . import kernel as _kernel
     _kernel.run_lifecycle(led, ctx, "N")
     from . import C12 as _C12
+    run_rule(led, "N13", "MUST-PASS: selectors with a tie-breaker leave only through its select (which resets it)", n13, ctx)
     run_rule(led, "N12", "view `contains` (used by the value selectors) keeps its divisibility guard (shared with C12-V1d)", _C12.v1_divis, ctx)
